@@ -549,7 +549,7 @@ func init() {
 		c03OwnerDNS(c, u, e*2, true)
 		n, ops, prob, max := 5, 240, 2, 600
 		if wide {
-			n, ops, prob, max = 60, 500, 6, 5000
+			n, ops, prob, max = 160, 500, 16, 5000
 		}
 		c.walk(u, walkOpts{Worlds: n, Ops: ops, Proj: c05ProjState, Monitors: []monitor{c05Adapt(c03Mons...)}, EmitProb: prob, MaxCases: max,
 			Tune: func(g *gen) {
